@@ -97,7 +97,14 @@ fn check_known(p: &Prepared, evs: &[DEv], r: &Rendered, sched: &Sched) -> (Optio
                         }
                     }
                 }
-                if parsed.len() != want_attrs.len() || programmatic > 1 {
+                // at most one programmatic attribute per distinct name set by an earlier handler
+                let max_programmatic = {
+                    let mut names: Vec<&str> = p.cfg.handlers.iter().flat_map(|h| h.ops.iter()).filter_map(|o| if let Op::SetAttr(n, _) = o { Some(n.as_str()) } else { None }).collect();
+                    names.sort();
+                    names.dedup();
+                    names.len().max(1)
+                };
+                if parsed.len() != want_attrs.len() || programmatic > max_programmatic {
                     return (Some(format!("handler #{reg}: {} located attributes, reference parser finds {} in {:?}", parsed.len(), want_attrs.len(), lossy(tag))), calls, located);
                 }
                 for (a, ra) in parsed.iter().zip(want_attrs.iter().copied()) {
@@ -244,7 +251,16 @@ pub fn replay(case: &Value) -> Option<String> {
 pub fn run_check(ctx: &Ctx) -> i32 {
     let alpha = doc_alphabet();
     let quick = ctx.quick();
-    let set_k_cfg = Cfg::with(vec![HSpec { log: false, ..HSpec::with_ops(HKind::Element, "*", vec![Op::SetAttr("k".into(), "new value".into())]) }, HSpec::obs(HKind::Element, "*")]).strict(false);
+    // an earlier handler modifies tokens TWICE (attribute + attribute, end tag name + name, comment
+    // text + text); later handlers read the locations, which still are the original ranges
+    let set_k_cfg = Cfg::with(vec![
+        HSpec { log: false, end_tag_ops: Some(vec![Op::SetText("zz".into()), Op::SetText("yy".into())]), ..HSpec::with_ops(HKind::Element, "*", vec![Op::SetAttr("k".into(), "new value".into()), Op::SetAttr("zz".into(), "1".into()), Op::SetAttr("zz".into(), "2".into())]) },
+        HSpec { log: false, ..HSpec::with_ops(HKind::DocComments, "", vec![Op::SetText("one".into()), Op::SetText("two".into())]) },
+        HSpec::obs(HKind::Element, "*"),
+        HSpec::obs_end_tag("*"),
+        HSpec::obs(HKind::DocComments, ""),
+    ])
+    .strict(false);
     let cfgs: Vec<Prepared> = vec![
         Prepared::new(observer_cfg("UTF-8")).unwrap(),
         Prepared::new(rewriting_cfg("UTF-8")).unwrap(),
